@@ -455,9 +455,14 @@ def restart_script(rng, name, who_dials):
     # if the restarted node does not dial, its peer finds out when the old session times out (peer timeout) and re-dials
     # a dialling restarted node is answered by the old session's lingering handshake (up to 60 s) before a new responder takes over
     # (lingering handshakes of old sessions answer new pings with their last message for up to 60 s; the bound of the property is peer timeout + retry horizon)
-    for _ in range(60 + 130):
+    for k in range(60 + 130):
         t += 1
         ops += second([1, 2], t)
+        if k < 15 or 58 <= k < 75 or k % 20 == 0:
+            # probes: whenever both ends hold a completed session for each other, each must open what the other seals
+            for a, b in ((1, 2), (2, 1)):
+                ops.append("nframe %d %s" % (a, hx(ipv4_packet(ip4(a), ip4(b), b"probe %d" % k))))
+                ops.append("ndeliver 0")
     for a, b in ((1, 2), (2, 1), (1, 2)):
         ops.append("nframe %d %s" % (a, hx(ipv4_packet(ip4(a), ip4(b), b"after restart"))))
         ops.append("ndeliver 0")
